@@ -51,7 +51,7 @@ def reparse_of(circ, natives):
 def run_tree(job):
     """replay all histories (prefix tree) on fresh parses of one program under one override"""
     prog, ovr, hists = job['prog'], job['ovr'], job['hists']
-    text = render.render_prog(prog)
+    text = job.get('text') or render.render_prog(prog)
     pout, circ0 = passes.outcome(lambda: passes.parse_prog(prog, text))
     if circ0 is None:
         return None
@@ -132,8 +132,9 @@ def main(tier):
     for f in rep.findings:
         if 'witness' in f:
             w = f['witness']
-            jobs.append({'id': 'witness/' + f['id'], 'prog': w['prog'], 'ovr': w.get('ovr', []), 'hists': hists,
-                         'flags': True})
+            wp = dict(passes.EMPTY_PROG, natives=passes.exact_natives() if w.get('natives') else [])
+            jobs.append({'id': 'witness/' + f['id'], 'prog': wp, 'text': w['text'], 'hists': hists, 'flags': True,
+                         'ovr': [{'v': k, 'val': project.num(v)} for k, v in w.get('ovr', [])]})
     rep.phase('tlc_enumeration')
     recs = [c for cs in core.pool_map(run_tree, jobs, chunksize=4) if cs for c in cs]
     rep.phase('replay')
